@@ -42,6 +42,7 @@ package graph
 //@     && forall(m, Inner, imp(old(allocated(m)) && !old(infoot(g, m)), unchanged(m)))
 // the three references of an initialised graph never change
 //@ ghost footGrows(g *Graph) bool = forall(m, Inner, imp(infoot(g, m), old(infoot(g, m)) || fresh(m)))
+//@ ghost innerStable(g *Graph) bool = forall(k, any, imp(old(has(g.hash, k)) && has(g.hash, k), g.adjacencyOut[k] == old(g.adjacencyOut[k]) && g.adjacencyIn[k] == old(g.adjacencyIn[k])))
 //@ ghost sameRefs(g *Graph) bool = imp(!old(zerog(g)), g.adjacencyOut == old(g.adjacencyOut) && g.adjacencyIn == old(g.adjacencyIn) && g.hash == old(g.hash))
 //@ ghost sameVerts(g *Graph) bool = forall(k, any, has(g.hash, k) == old(has(g.hash, k)) && g.hash[k] == old(g.hash[k]))
 //@ ghost sameEdges(g *Graph) bool = forall(a, any, b, any, edge(g, a, b) == old(edge(g, a, b)) && imp(edge(g, a, b), wgt(g, a, b) == old(wgt(g, a, b))))
@@ -82,6 +83,7 @@ package graph
 //@   ensures  [edges] sameEdges(g)
 //@   ensures  [frame] frameG(g)
 //@   ensures  [foot] footGrows(g)
+//@   ensures  [inner-stable] innerStable(g)
 //@   assigns  Graph.adjacencyOut, Graph.adjacencyIn, Graph.hash, Outer, HashM, Inner
 
 //@ func (*Graph).AddOverwrite
@@ -94,6 +96,7 @@ package graph
 //@   ensures  [edges] sameEdges(g)
 //@   ensures  [frame] frameG(g)
 //@   ensures  [foot] footGrows(g)
+//@   ensures  [inner-stable] innerStable(g)
 //@   assigns  Graph.adjacencyOut, Graph.adjacencyIn, Graph.hash, Outer, HashM, Inner
 
 //@ func (*Graph).Remove
@@ -105,6 +108,7 @@ package graph
 //@   ensures  [edges] forall(a, any, b, any, edge(g, a, b) == (old(edge(g, a, b)) && a != hc(v) && b != hc(v)) && imp(edge(g, a, b), wgt(g, a, b) == old(wgt(g, a, b))))
 //@   ensures  [frame] frameG(g)
 //@   ensures  [foot] footGrows(g)
+//@   ensures  [inner-stable] innerStable(g)
 //@   assigns  Outer, HashM, Inner
 //@   loop 1 invariant g.adjacencyOut == old(g.adjacencyOut) && g.adjacencyIn == old(g.adjacencyIn) && g.hash == old(g.hash)
 //@   loop 1 invariant rmap1 == old(g.adjacencyOut[hc(v)]) && h == hc(v)
@@ -138,6 +142,7 @@ package graph
 //@   ensures  [weights] forall(a, any, b, any, imp(edge(g, a, b), wgt(g, a, b) == ite(a == hc(v1) && b == hc(v2), 1, old(wgt(g, a, b)))))
 //@   ensures  [frame] frameG(g)
 //@   ensures  [foot] footGrows(g)
+//@   ensures  [inner-stable] innerStable(g)
 //@   assigns  Graph.adjacencyOut, Graph.adjacencyIn, Graph.hash, Outer, HashM, Inner
 
 //@ func (*Graph).AddEdgeWeighted
@@ -148,6 +153,7 @@ package graph
 //@   ensures  [weights] forall(a, any, b, any, imp(edge(g, a, b), wgt(g, a, b) == ite(a == hc(v1) && b == hc(v2), weight, old(wgt(g, a, b)))))
 //@   ensures  [frame] frameG(g)
 //@   ensures  [foot] footGrows(g)
+//@   ensures  [inner-stable] innerStable(g)
 //@   assigns  Graph.adjacencyOut, Graph.adjacencyIn, Graph.hash, Outer, HashM, Inner
 
 //@ func (*Graph).RemoveEdge
@@ -157,6 +163,7 @@ package graph
 //@   ensures  [edges] forall(a, any, b, any, edge(g, a, b) == (old(edge(g, a, b)) && !(a == hc(v1) && b == hc(v2))) && imp(edge(g, a, b), wgt(g, a, b) == old(wgt(g, a, b))))
 //@   ensures  [frame] frameG(g)
 //@   ensures  [foot] footGrows(g)
+//@   ensures  [inner-stable] innerStable(g)
 //@   assigns  Graph.adjacencyOut, Graph.adjacencyIn, Graph.hash, Outer, HashM, Inner
 
 // ---------------------------------------------------------------- queries
@@ -509,6 +516,7 @@ package graph
 //@   loop 2 invariant kahnBase(g, old(g), L, S)
 //@   loop 2 invariant forall(a, any, b, any, edge(g, a, b) == (edge(old(g), a, b) && !inL(L, a)))
 //@   loop 3 invariant rmap3 == g.adjacencyOut[n] && inL(L, n) && kpos[n] == len(L)-1 && has(old(g).hash, n)
+//@   loop 3 invariant forall(m, Inner, imp(infoot(g, m), fresh(m)))
 //@   loop 3 invariant heapKept() && g != nil && g != old(g) && wf(g) && fresh(g) && fresh(g.hash) && fresh(g.adjacencyOut) && fresh(g.adjacencyIn)
 //@   loop 3 invariant forall(k, any, imp(has(g.hash, k), fresh(g.adjacencyOut[k]) && fresh(g.adjacencyIn[k])))
 //@   loop 3 invariant forall(k, any, has(g.hash, k) == has(old(g).hash, k) && g.hash[k] == old(g).hash[k])
